@@ -10,6 +10,7 @@ ops (all byte strings in hex, `-` = empty):
          flags ⊆ "raocn" or "-": r = may keep the announcement tag, a = anonymous board, o = open board (ALLPOST copy),
          c = credited, n = not permitted (the request is refused before anything is written)
          lines = "." (none) or comma separated hex lines
+  postfail <limit> <the nine tokens of post>   the same request while article files cannot grow beyond <limit> bytes
   defuse <line>      ptt.StripANSIMoveCmd
   trim   <line>      cmsys.Trim
 Environment choices are instantiated with fixed placeholders; the harness masks the same fields.
@@ -104,6 +105,26 @@ def lastRecord (f : C05.FS) (sz : Nat) : List Nat :=
   let n := f.bytes.length / sz
   if n = 0 then [] else C05.record f.bytes sz (n - 1)
 
+def parseReq (d : DSt) (toks : List String) : Option (Req × Bool) :=
+  match toks with
+  | [board, dirBoard, user, flags, ip, frm, cls, title, lines] => do
+    let board ← parseHex board
+    let dirBoard ← parseHex dirBoard
+    let user ← parseHex user
+    let (_, uid, nick) ← d.utab.find? (·.1 == user)
+    let _ ← findBoard d.st.boards board
+    let fl ← parseFlags flags
+    let ip ← parseHex ip
+    let frm ← parseHex frm
+    let cls ← parseHex cls
+    let title ← parseHex title
+    let lines ← parseLines lines
+    pure ({ board := board, dirBoard := dirBoard, userID := user, nick := nick, uid := uid,
+            role := fl.contains 'r', anon := fl.contains 'a', isOpen := fl.contains 'o',
+            credit := fl.contains 'c', ip := ip, frm := frm, cls := cls, title := title, lines := lines },
+          fl.contains 'n')
+  | _ => none
+
 def stepC09 (st : Option DSt) (ws : List String) : Option DSt × String :=
   match ws with
   | ["consts"] => (st, constsLine)
@@ -124,23 +145,7 @@ def stepC09 (st : Option DSt) (ws : List String) : Option DSt × String :=
     | none => (st, "bad-op")
     | some d =>
       let s := d.st
-      let req : Option (Req × Bool) := do
-        let board ← parseHex board
-        let dirBoard ← parseHex dirBoard
-        let user ← parseHex user
-        let (_, uid, nick) ← d.utab.find? (·.1 == user)
-        let _ ← findBoard s.boards board
-        let fl ← parseFlags flags
-        let ip ← parseHex ip
-        let frm ← parseHex frm
-        let cls ← parseHex cls
-        let title ← parseHex title
-        let lines ← parseLines lines
-        pure ({ board := board, dirBoard := dirBoard, userID := user, nick := nick, uid := uid,
-                     role := fl.contains 'r', anon := fl.contains 'a', isOpen := fl.contains 'o',
-                     credit := fl.contains 'c', ip := ip, frm := frm, cls := cls, title := title, lines := lines },
-                   fl.contains 'n')
-      match req with
+      match parseReq d [board, dirBoard, user, flags, ip, frm, cls, title, lines] with
       | none => (st, "bad-op")
       | some (q, refused) =>
         if refused then (st, "refused " ++ stateLine s q)
@@ -153,6 +158,20 @@ def stepC09 (st : Option DSt) (ws : List String) : Option DSt × String :=
             let xrec := if q.isOpen ∧ (findBoard s.boards ALLPOST).isSome then toHex p.xrecord else "-"
             (some { d with st := s' }, s!"ok st={toHex (cstr (p.title.take TITLE_SZ))} rec={toHex p.record} file={toHex p.content} log={toHex p.logRec} xrec={xrec} "
                         ++ stateLine s' q)
+  | ["postfail", lim, board, dirBoard, user, flags, ip, frm, cls, title, lines] =>
+    match st, parseNat? lim with
+    | some d, some _ =>
+      let s := d.st
+      match parseReq d [board, dirBoard, user, flags, ip, frm, cls, title, lines] with
+      | none => (st, "bad-op")
+      | some (q, refused) =>
+        if refused then (st, "refused " ++ stateLine s q)
+        else if q.dirBoard ≠ q.board then (st, "bad-board-id " ++ stateLine s q)
+        else
+          match postWriteFails s q phEnv with
+          | .error e => (st, toString e ++ " " ++ stateLine s q)
+          | .ok s' => (some { d with st := s' }, "failed " ++ stateLine s' q)
+    | _, _ => (st, "bad-op")
   | _ => (st, "bad-op")
 
 def main : IO Unit := runHandler { init := (none : Option DSt), step := stepC09 }
